@@ -314,5 +314,5 @@ def bounded_checks(tier, seed):
     d = json.loads(r.stdout.strip().splitlines()[-1])
     return [{"check": "roundtrip_modules", "tool": "generated modules (every model field, 39 expression shapes in annotations / defaults / values / decorators / bases) loaded statically, "
              "with resolved aliases, and by inspection; dumped minimal and full, reloaded, compared field by field and re-dumped; plus namespace package, parsed docstrings, built-in module",
-             "bound": "39 modules (every expression class, multi-line decorators, indented docstrings, annotated attributes, derived classes) x 3 loading modes x 2 dump modes + special trees (namespace, built-in, parsed docstrings, directly built objects) + the command-line dump (one file / per package, minimal / full)", "cases": d["cases"], "failing": len(d["bad"]), "wall_s": round(time.time() - t0, 1),
+             "bound": "39 modules (every expression class, multi-line decorators, indented docstrings, annotated attributes, derived classes) x 3 loading modes x 2 dump modes + special trees (namespace, built-in, parsed docstrings, directly built objects, a package with re-export chains with and without resolved aliases) + the command-line dump (one file / per package, minimal / full)", "cases": d["cases"], "failing": len(d["bad"]), "wall_s": round(time.time() - t0, 1),
              "class_match": True, "violations": d["bad"]}]
